@@ -21,6 +21,7 @@ from report import RuleResult
 
 TABLE = os.path.join(os.path.dirname(os.path.dirname(os.path.abspath(__file__))), "tables", "r18.toml")
 COMP = "COMP"
+SEG = "SEG"
 SAME_SHAPE = {"mapv", "map", "mapv_into", "to_owned", "clone", "view", "view_mut", "deref", "deref_mut", "borrow", "as_ref", "into_owned",
               "neg", "reborrow", "to_vec", "into_iter", "iter", "iter_mut", "rev", "skip", "take", "by_ref", "into_dimensionality", "cloned", "copied",
               "abs", "exp", "ln", "sqrt", "recip", "powi", "powf", "mapv_inplace"}
@@ -92,7 +93,7 @@ def global_owner(o):
     """fields of parameter structs (and StateHD) are whole-program variables; helper structs that are instantiated for several
     index spaces (e.g. MeanSegmentNumbers for dipoles and for quadrupoles) are tracked per holder variable instead"""
     last = o.split("<")[0].split("::")[-1]
-    return last.endswith("Parameters") or last == "StateHD"
+    return last.endswith("Parameters") or last in ("StateHD", "State")
 
 
 class Inference:
@@ -117,6 +118,8 @@ class Inference:
     # ------------------------------------------------------------ node resolution
     def field_node(self, kind, owner, name, axis=None):
         if owner.endswith("StateHD") and name in ("moles", "molefracs", "partial_density") and kind == "FS":
+            return COMP
+        if owner.split("<")[0] in ("feos_core::State", "feos_core::state::State") and name in ("moles", "molefracs", "partial_density") and kind == "FS":
             return COMP
         o = owner.split("<")[0]
         return "%s:%s.%s%s" % (kind, o, name, "" if axis is None else "#%d" % axis)
@@ -384,6 +387,15 @@ class Inference:
             dest = t["dest"]
             sp = site(t["span"])
             dty = b.pty(dest)
+            if name in ("get", "set") and p.startswith("quantity::array::") and len(args) >= 2 and args[0].get("k") in ("copy", "move"):
+                # element access of a quantity array: `moles.get(i)`, `moles.set(i, value)`
+                key = self.index_key(b, args[1])
+                if key:
+                    self.n_index_sites += 1
+                    for ax, kn in enumerate(key):
+                        if kn:
+                            self.U(self.space(b, args[0]["place"], ax), kn, sp)
+                continue
             if name in ("index", "index_mut") and tr in ("std::ops::Index", "std::ops::IndexMut") and len(args) == 2 and args[0].get("k") in ("copy", "move"):
                 key = self.index_key(b, args[1])
                 if key:
@@ -400,6 +412,12 @@ class Inference:
                 continue
             if name == "components" and tr and tr.endswith("Components") and is_int_ty(dty):
                 self.U(self.kind_of_place(b, dest), COMP, sp)
+                continue
+            if b.path.startswith("feos_dft::") and name in ("component_index", "m") and tr and tr.endswith("HelmholtzEnergyFunctional"):
+                # generic DFT code: the segment index space.  `component_index()[s]` is the component of segment s, `m()[s]` its chain length
+                self.U(self.space(b, dest, 0), SEG, sp)
+                if name == "component_index":
+                    self.U(self.elem(b, dest), COMP, sp)
                 continue
             if name in ("into_iter", "iter", "rev", "skip", "take", "by_ref", "step_by", "peekable", "next", "next_back") and args and args[0].get("k") in ("copy", "move"):
                 aty = b.pty(args[0]["place"])["s"]
@@ -466,7 +484,7 @@ def run(F):
     classes = {}
     for x in list(uf.p):
         classes.setdefault(uf.find(x), []).append(x)
-    rigid = lambda n: n == COMP or n.startswith("FK:")
+    rigid = lambda n: n in (COMP, SEG) or n.startswith("FK:")
     n_rigid_classes = 0
     reviewed = {frozenset(x) for x in same}
     for root, members in sorted(classes.items()):
